@@ -297,7 +297,13 @@ class BaseDriver:
         if not isinstance(port, int):
             raise ScrapliTypeError(f"`port` should be int, got {type(port)}")
 
-        return host.strip(), port
+        host = host.strip()
+        if host.startswith("-"):
+            # the system transport puts the host on the ssh command line where a leading "-" would
+            # be read as an option (same check as openssh itself does for hostnames)
+            raise ScrapliValueError(f"`host` should be a hostname/ip address, got '{host}'")
+
+        return host, port
 
     @staticmethod
     def _setup_auth(
